@@ -887,6 +887,38 @@ fn span_ms(map: &Beatmap) -> f64 {
 // the calculations
 
 static LAST_PANIC_LOC: Mutex<String> = Mutex::new(String::new());
+/// bumped before every call of a worker; watched by the worker's own watchdog thread
+static CALLS: std::sync::atomic::AtomicU64 = std::sync::atomic::AtomicU64::new(0);
+
+fn parent_pid() -> Option<u64> {
+    // /proc/self/stat: `pid (comm) state ppid …`
+    let s = fs::read_to_string("/proc/self/stat").ok()?;
+    let rest = &s[s.rfind(')')? + 1..];
+    rest.split_whitespace().nth(1)?.parse().ok()
+}
+
+/// A worker must never outlive its usefulness: it exits when its parent is gone (the harness was
+/// killed, e.g. by ./check's timeout) or when a single call has been running for twice the
+/// parent's watchdog time (the parent would have killed it by then).
+fn spawn_self_watchdog() {
+    use std::sync::atomic::Ordering;
+    let ppid0 = parent_pid();
+    std::thread::spawn(move || {
+        let mut last = CALLS.load(Ordering::Relaxed);
+        let mut since = Instant::now();
+        loop {
+            std::thread::sleep(Duration::from_secs(2));
+            let now = CALLS.load(Ordering::Relaxed);
+            if now != last {
+                last = now;
+                since = Instant::now();
+            }
+            if since.elapsed() > 2 * CASE_TIMEOUT || (ppid0.is_some() && parent_pid() != ppid0) {
+                std::process::exit(9);
+            }
+        }
+    });
+}
 
 struct Rec {
     /// single-case workers announce every call before making it, so that a hang / abort is
@@ -913,6 +945,7 @@ impl Rec {
 
     fn call<T>(&mut self, api: &'static str, f: impl FnOnce() -> T) -> Option<T> {
         *self.apis.entry(api).or_insert(0) += 1;
+        CALLS.fetch_add(1, std::sync::atomic::Ordering::Relaxed);
         // heartbeat: the parent's watchdog looks at the growth of the protocol file
         if self.last_beat.elapsed() > Duration::from_secs(1) {
             self.last_beat = Instant::now();
@@ -1362,6 +1395,7 @@ fn child_main(seed: u64, domain: Domain, lo: usize, hi: usize, file: &Path, n_se
     let Ok(mut out) = fs::OpenOptions::new().create(true).append(true).open(file) else {
         std::process::exit(3);
     };
+    spawn_self_watchdog();
     for idx in lo..hi {
         let _ = writeln!(out, "S\t{idx}");
         let _ = out.flush();
